@@ -103,6 +103,9 @@ func runC09(c *Ctx) {
 	c.Rule("R09f", "Executor.exec: ranges over its files parameter as given, calls Execute on the loop variable, and the error branch of Execute returns (fail-stop)", 3)
 	c.Rule("R09g", "writeRevision reaches RevisionReadWriter.WriteRevision on every path and wraps its error in WriteRevisionError", 2)
 
+	c.Rule("R09h", "Executor.Pending decides whether the last revision is complete from Applied and Total alone: its conditions read no other Revision field than Applied, Total and Version, and Applied is only ever compared with Total of the same revision", 4)
+	checkPendingReads(c, "R09h")
+
 	s := loadExecShape(c, "R09a")
 	if s == nil {
 		return
@@ -595,19 +598,15 @@ func runC12(c *Ctx) {
 		// dominance: entry -> ExecContext must pass the loop condition, except via the false edge of `Applied > 0`
 		isLoopCond := func(n ast.Node) bool { return n == ast.Node(loop.Cond) }
 		bypass := func(b *cfg.Block, si int) bool {
-			cond, _, _ := condOf(b)
-			be, ok := cond.(*ast.BinaryExpr)
-			if !ok || si != 1 {
-				return false
-			}
-			if !isField(info, be.X, pMigrate, "Revision", "Applied") {
-				return false
-			}
-			tv := info.Types[be.Y]
-			if tv.Value == nil {
-				return false
-			}
-			return (be.Op == token.GTR || be.Op == token.NEQ) && tv.Value.String() == "0"
+			// the edge on which `r.Applied > 0` (or != 0) is false: nothing was applied
+			return edgeImplies(b, si, func(e ast.Expr, val bool) bool {
+				be, ok := e.(*ast.BinaryExpr)
+				if !ok || val || !isField(info, be.X, pMigrate, "Revision", "Applied") {
+					return false
+				}
+				tv := info.Types[be.Y]
+				return tv.Value != nil && (be.Op == token.GTR || be.Op == token.NEQ) && tv.Value.String() == "0"
+			})
 		}
 		n, found := f.reachEx([]point{f.entry()}, isLoopCond, s.isExec, bypass)
 		c.Check("R12b", "Execute|compare≺ExecContext", nodePos(n, loop.Pos()), !found, "ExecContext at %s is reachable without the applied prefix having been compared", c.nodeAt(n))
@@ -730,4 +729,67 @@ func flipOp(op token.Token) token.Token {
 		return token.LEQ
 	}
 	return op
+}
+
+// checkPendingReads: see R09h (shared with C11).
+func checkPendingReads(c *Ctx, rule string) {
+	fi := c.Func(rule, pMigrate, "Executor", "Pending")
+	if fi == nil {
+		return
+	}
+	info := fi.Info()
+	pm := parentMap(fi.Decl.Body)
+	revField := func(e ast.Expr) string {
+		se, ok := e.(*ast.SelectorExpr)
+		if !ok {
+			return ""
+		}
+		if v := fieldOf(info, se); v != nil && isField(info, se, pMigrate, "Revision", v.Name()) {
+			return v.Name()
+		}
+		return ""
+	}
+	inBool := func(n ast.Node) bool {
+		for p := pm[n]; p != nil; p = pm[p] {
+			if e, ok := p.(ast.Expr); ok {
+				if t := info.TypeOf(e); t != nil {
+					if b, ok := t.Underlying().(*types.Basic); ok && b.Info()&types.IsBoolean != 0 {
+						return true
+					}
+				}
+			}
+			if _, ok := p.(ast.Stmt); ok {
+				return false
+			}
+		}
+		return false
+	}
+	ast.Inspect(fi.Decl.Body, func(m ast.Node) bool {
+		se, ok := m.(*ast.SelectorExpr)
+		if !ok {
+			return true
+		}
+		f := revField(se)
+		if f == "" || !inBool(se) {
+			return true
+		}
+		allowed := f == "Applied" || f == "Total" || f == "Version"
+		c.Check(rule, "Pending|condition reads Revision."+f, se.Pos(), allowed, "a decision of Executor.Pending depends on Revision.%s: whether a revision is complete must follow from Applied and Total alone (e.g. a failed revision write leaves Applied<Total with an empty Error)", f)
+		return true
+	})
+	ast.Inspect(fi.Decl.Body, func(m ast.Node) bool {
+		be, ok := m.(*ast.BinaryExpr)
+		if !ok {
+			return true
+		}
+		l, r := revField(be.X), revField(be.Y)
+		if l != "Applied" && r != "Applied" {
+			return true
+		}
+		good := (be.Op == token.EQL || be.Op == token.NEQ) &&
+			((l == "Applied" && r == "Total") || (l == "Total" && r == "Applied")) &&
+			types.ExprString(be.X.(*ast.SelectorExpr).X) == types.ExprString(be.Y.(*ast.SelectorExpr).X)
+		c.Check(rule, "Pending|Applied ⋈ Total", be.Pos(), good, "Applied must be compared (==, !=) with Total of the same revision (got %s)", types.ExprString(be))
+		return true
+	})
 }
